@@ -147,6 +147,15 @@ func fidelityCorpus(fe *fidEngine) {
 		fe.runConfig(c, &config{Method: "GET", Tmpl: tmpl("/twice"), Twice: true,
 			Req: level{Hdr: []multi{m1("X-One", 0, "1")}, Query: []multi{m1("q", 0, "1")}, Cookies: []single{s1("c", "1")}}}, 2)
 	})
+	// repeated form keys with another key in between, next to a file
+	e.Corpus("multipart-form-keys-interleaved", func(c *ev.Case) {
+		cf := &config{Method: "POST", Tmpl: tmpl("/f"), Body: bFiles, FormInterleave: true,
+			Form:  []multi{m1("tag", 0, "red", "blue"), m1("size", 0, "L", ""), m1("note", 1, "x")},
+			Files: []fileSpec{{Name: "a.txt", Content: "x", Via: 0}}}
+		fe.runConfig(c, cf, 2)
+		cf2 := &config{Method: "POST", Tmpl: tmpl("/f"), Body: bForm, FormInterleave: true, Form: []multi{m1("tag", 0, "red", "blue"), m1("size", 0, "L", "")}}
+		fe.runConfig(c, cf2, 2)
+	})
 	e.Corpus("struct-setters", func(c *ev.Case) { fe.runStructs(c) })
 	e.Corpus("precedence-all-kinds", func(c *ev.Case) {
 		cf := &config{Method: "POST", UseBase: true, Tmpl: tmpl("/p/", ":name"),
